@@ -250,8 +250,9 @@ def main(argv=None):
         "wall_s": round(wall, 1),
         "violations": len(violations),
     }
-    os.makedirs(os.path.join(ROOT, "evidence"), exist_ok=True)
-    with open(os.path.join(ROOT, "evidence", pid + ".json"), "w") as fh:
+    evdir = os.environ.get("VF_EVIDENCE_DIR") or os.path.join(ROOT, "evidence")     # (runs against a modified scratch tree write elsewhere)
+    os.makedirs(evdir, exist_ok=True)
+    with open(os.path.join(evdir, pid + ".json"), "w") as fh:
         json.dump(ev, fh, indent=1, default=str)
 
     print(f"{pid} {a.tier}: obligations={n_ob} discharged={n_dis} inconclusive={n_inc} refuted={len(violations)} "
